@@ -21,7 +21,16 @@ def main():
         sys.exit(replay.run(a.replay))
     print('check %s tier=%s seed=%d repo=%s nproc=%d' % (a.prop, a.tier, seed, env.REPO, env.NPROC))
     sys.stdout.flush()
-    rc = mod.run(a.tier, seed)
+    try:
+        rc = mod.run(a.tier, seed)
+    except BaseException as e:
+        if isinstance(e, (KeyboardInterrupt, SystemExit)):
+            raise
+        # exit 1 is reserved for "VIOLATION ... replay=..." - an exception here is a harness problem
+        import traceback
+        traceback.print_exc()
+        print('INTERNAL-ERROR property=%s (uncaught exception in the check, no verdict)' % a.prop)
+        rc = 2
     sys.stdout.flush()
     sys.exit(rc)
 
